@@ -38,6 +38,7 @@ func main() {
 	dump := flag.String("dump", "", "debug: print must-facts and keys for calls whose callee name contains this string")
 	manifest := flag.Bool("manifest", false, "regenerate MANIFEST.json from the registry")
 	noself := flag.Bool("noselftest", false, "thorough: skip the mutant self-validation")
+	refn := flag.String("refnames", "", "maintenance: write the reference inventory of unexported names of -repo to this file (turncheck/refnames.json) and exit")
 	flag.Parse()
 	if *verif == "" {
 		wd, _ := os.Getwd()
@@ -77,6 +78,16 @@ func main() {
 		if *dump != "" {
 			w := Load(*repo, "", "")
 			dumpFacts(w, *dump)
+			code = 0
+			return
+		}
+		if *refn != "" {
+			w := Load(*repo, "", "")
+			if err := writeRefnames(w, *refn); err != nil {
+				fmt.Fprintln(os.Stderr, err)
+				code = 2
+				return
+			}
 			code = 0
 			return
 		}
